@@ -38,28 +38,6 @@ def earlyOKL : Ctx → SL → Bool
   | c, .cons s r => earlyOK c [] s && earlyOKL c r
 end
 
-mutual
-/-- deviation region `continue_non_iteration_label`: somewhere a `continue L` sits inside a loop, L is an enclosing
-    label, but L does not label an enclosing iteration statement -/
-def devCont : Ctx → List Nat → S → Bool
-  | c, _, .cont (some l) => c.labels.contains l && c.inIter && !c.iterLabels.contains l
-  | c, _, .block b => devContL c b
-  | c, _, .if1 t => devCont c [] t
-  | c, _, .if2 t e => devCont c [] t || devCont c [] e
-  | c, p, .loop _ body => devCont (c.loopBody p) [] body
-  | c, _, .switch cl => devContL c.switchBody cl
-  | c, _, .try_ b ca f =>
-    devContL c b || (match ca with | some x => devContL c x | none => false)
-      || (match f with | some x => devContL c x | none => false)
-  | c, _, .with_ b => devCont c [] b
-  | c, p, .label l s => devCont (c.push l) (l :: p) s
-  | c, _, .fn body => devContL c.fnBody body
-  | _, _, _ => false
-def devContL : Ctx → SL → Bool
-  | _, .nil => false
-  | c, .cons s r => devCont c [] s || devContL c r
-end
-
 /-- the context invariant: labels of enclosing iteration statements are enclosing labels, and exist only inside a loop;
     pending labels are enclosing labels -/
 def Inv (c : Ctx) (p : List Nat) : Prop :=
